@@ -273,6 +273,7 @@ def read_line(p, idx):
     return None
 
 
+KF_RE = re.compile(r'<<"KNOWN-FINDING", "([^"]+)", "([^"]+)", "([^"]*)">>')
 B_RE = re.compile(r"^/\\ b = (\d+)\s*$")
 INV_RE = re.compile(r"Error: Invariant (\S+) is violated")
 
@@ -350,11 +351,14 @@ def tlc_validate(d, trace_path, invariants, timeout=900, skip=(), name="Trace", 
         shutil.rmtree(md, ignore_errors=True)
     if timed_out:
         raise ToolError("TLC trace validation timeout after %ss" % timeout)
+    res["known"] = {}
     for (pr, fo, outp, off, md) in procs:
         gen, dist = tlc_stats(outp)
         res["states"] += dist
         res["transitions"] += gen
         text = open(outp, errors="replace").read()
+        for mk in KF_RE.finditer(text):
+            res["known"].setdefault((mk.group(1), mk.group(2)), []).append(mk.group(3))
         if "Model checking completed. No error has been found." in text:
             continue
         if not res["ok"]:
